@@ -27,9 +27,9 @@ def run(tier):
     h = common.build_harness()
     d = common.sub("c19")
     db = os.path.join(d, "drv.db")
-    desc = gen.tree_db(db, 1024, random.Random(rnd.randrange(1 << 30)), n=40, extreme=False)
+    desc = gen.tree_db(db, 1024, random.Random(rnd.randrange(1 << 30)), n=40, extreme=False, deep_rows=600)
     con = sqlite3.connect(db)
-    counts = {t: con.execute("SELECT count(*) FROM %s" % t).fetchone()[0] for t in ("r", "w", "alt", "e")}
+    counts = {t: con.execute("SELECT count(*) FROM %s" % t).fetchone()[0] for t in ("r", "w", "alt", "e", "deep")}
     con.close()
     queries = [("SELECT * FROM alt", "alt", None), ("SELECT id, a, b FROM r", "r", ["id", "a", "b"]), ("select * from w", "w", None),
                ("SELECT q, p, d1 FROM alt", "alt", ["q", "p", "d1"]), ("SELECT * FROM e", "e", None), ("SELECT rowid, c FROM r", "r", ["rowid", "c"]),
@@ -55,6 +55,11 @@ def run(tier):
                             add(query=q, next_k=k, action=action, gomaxprocs=gmp, yield_first=yf, table=t, n=n, fault=False)
         add(query=q, next_k=-1, action="drain", gomaxprocs=4, yield_first=False, table=t, n=n, fault=False, compare=(t, cols))
         add(query=q, next_k=-1, action="drain", gomaxprocs=1, yield_first=True, table=t, n=n, fault=False, compare=(t, cols))
+    # a table of many pages closed early: Close must STOP the producer, not let it run through the rest of the table
+    for k in (0, 1, 2, 7, 40):
+        for action in ("close", "cancel_close"):
+            for yf in (False, True):
+                add(query="SELECT id, t FROM deep", next_k=k, action=action, gomaxprocs=4, yield_first=yf, table="deep", n=counts["deep"], fault=False, stopcost=True)
     # read faults inside the statement's handle, at every read position of a scan of r
     for j in range(1, 26 if tier == "quick" else 60):
         for k, action in ((-1, "drain"), (1, "close"), (3, "cancel_close")):
@@ -135,6 +140,9 @@ def run(tier):
         evs = [{"ev": "reset", "n": s["n"], "fault": fault}]
         evs += [{"ev": e} for e in rs["events"]]
         evs.append({"ev": "settled", "locked": bool(rs["locked"]), "leak": bool(rs["leak"]), "late": bool(rs["late"])})
+        if s.get("stopcost"):
+            # one row step of this table: root-to-leaf path plus slack (the table has > 70 pages; a drained scan reads them all)
+            evs[-1].update(closereads=int(rs.get("close_reads", 0)), rowcost=8)
         schedules.append((name, evs))
         v.nontrivial((s["query"], s["next_k"] if s["next_k"] < 4 else "k", s["action"], s["gomaxprocs"], s["yield_first"], fault))
         if s.get("compare"):
@@ -155,6 +163,52 @@ def run(tier):
             got = [tuple(values.from_jval(j) for j in row) for row in rs.get("rows") or []]
             want = [tuple(values.from_jval(j) for j in row) for row in nat.get("rows") or []]
             pairs.append(({"cls": "%s/%d" % (s["query"], s["id"]), "what": "database/sql %r" % s["query"], "sql": "native Select(%s, %s)" % (t, want_cols)}, got, want))
+    # a prepared statement executed again after another connection changed the table's definition: `*` means the columns
+    # the table has NOW
+    import shutil
+    again = []
+    for i, (q, t, alter) in enumerate([("SELECT * FROM alt", "alt", "ALTER TABLE alt ADD COLUMN zz DEFAULT 7"),
+                                      ("SELECT q, * FROM alt", "alt", "ALTER TABLE alt ADD COLUMN zz DEFAULT 'x'"),
+                                      ("select * from w", "w", "ALTER TABLE w ADD COLUMN extra"),
+                                      ("SELECT * FROM e", "e", "ALTER TABLE e RENAME COLUMN %s TO renamed" % desc["tables"]["e"]["columns"][0]["name"])]):
+        p2 = os.path.join(d, "again%d.db" % i)
+        shutil.copy(db, p2)
+        code = "import sqlite3, sys\nc = sqlite3.connect(sys.argv[1])\nc.execute(sys.argv[2])\nc.commit()\nc.close()\n"
+        again.append({"id": i, "db": p2, "query": q, "next_k": -1, "action": "drain", "gomaxprocs": 4, "yield_first": False, "prepared": True,
+                      "between": [common.PYTHON, "-c", code, p2, alter], "_t": t, "_alter": alter})
+    areq, aout = os.path.join(d, "again-req.ndjson"), os.path.join(d, "again-res.ndjson")
+    common.write_ndjson(areq, [{k: s_[k] for k in s_ if not k.startswith("_")} for s_ in again])
+    rc, txt, _ = common.run([h, "driver", areq, aout], timeout=600)
+    if rc != 0:
+        raise common.harness_failure(txt, "harness driver")
+    ares = {r_["id"]: r_ for r_ in common.read_ndjson(aout)}
+    for s_ in again:
+        ag = ares[s_["id"]].get("again") or {}
+        if ag.get("exec_err"):
+            raise Infra("the ALTER between the two executions failed: %s" % ag["exec_err"])
+        con = sqlite3.connect(s_["db"])
+        allcols = [c[1] for c in con.execute("PRAGMA table_xinfo(%s)" % s_["_t"]).fetchall() if c[6] == 0]
+        con.close()
+        want_cols = []
+        import re as _re
+        for c_ in [x.strip() for x in _re.split(r"(?i)\bfrom\b", _re.sub(r"(?i)^\s*select\b", "", s_["query"]))[0].split(",")]:
+            want_cols += allcols if c_ == "*" else [c_]
+        key = "C19:prepared-after-schema-change:%s" % s_["_alter"].split()[3]
+        if ag.get("query_err") or ag.get("err"):
+            continue            # an error is a visible outcome (the property asks for errors not to be silent)
+        if [c.lower() for c in ag.get("cols") or []] != [c.lower() for c in want_cols]:
+            v.report(key, "prepared %r executed again after %r: columns %s, the table now has %s" % (s_["query"], s_["_alter"], ag.get("cols"), want_cols),
+                     lambda s_=s_, ag=ag: common.write_replay("C19", "again-%d.json" % s_["id"], {"scenario": {k: s_[k] for k in s_ if k != "between"}, "again": {"cols": ag.get("cols")}}))
+            continue
+        nreq, nout = os.path.join(d, "an-req.ndjson"), os.path.join(d, "an-res.ndjson")
+        common.write_ndjson(nreq, [{"db": s_["db"], "mode": "fresh", "ops": [{"op": "select_all", "id": 0, "table": s_["_t"], "cols": want_cols}]}])
+        common.run([h, "ops", nreq, nout], timeout=120, check=True)
+        nat = common.read_ndjson(nout)[0]
+        got = [tuple(values.from_jval(j) for j in row) for row in ag.get("rows") or []]
+        want = [tuple(values.from_jval(j) for j in row) for row in nat.get("rows") or []]
+        pairs.append(({"cls": "again/%d" % s_["id"], "what": "prepared %r executed again after %r" % (s_["query"], s_["_alter"]), "sql": "native Select after the change"}, got, want))
+        v.nontrivial(("again", s_["query"], s_["_alter"]))
+    v.cov["prepared_statements_rerun_after_schema_change"] = len(again)
     # the same error / fault scenarios under the race detector build: the error hand-off (store, wait group, close of the
     # channel) must be ordered, an unordered one shows as a data race on the result set's fields
     hrace = common.build_harness(race=True)
